@@ -12,7 +12,9 @@ from ..engine import QUICK, THOROUGH, Ctx, Part, Property, Violation
 MAX_LEN = 400
 _SUFFIX = ["keep", "truncate", "drop-close", "drop-quote", "foreign", "foreign-tail",
            # a foreign character right after the pump: the late failure may need a particular offending character
-           "tail:(", "tail:)", "tail:\x00", "tail:\\", "tail:'", "tail:\u00e9", "tail:*", "tail: "]
+           "tail:(", "tail:)", "tail:\x00", "tail:\\", "tail:'", "tail:\u00e9", "tail:*", "tail: ",
+           # everything after the pump without any closing parenthesis / cut in the middle (unterminated nesting)
+           "no-closers", "half"]
 
 _ALPHABET: t.List[str] = []
 # per process: how often a label was confirmed already (on a broken tree thousands of families blow up; a few
@@ -56,6 +58,10 @@ def text_member(case: t.Dict[str, t.Any]) -> t.Callable[[int], str]:
     elif mode == "foreign":
         k = rest.rfind(")")
         suffix = (rest[:k] + "\x01" + rest[k:]) if k >= 0 else rest + "\x01"
+    elif mode == "no-closers":
+        suffix = rest.replace(")", "")
+    elif mode == "half":
+        suffix = rest[: len(rest) // 2]
     elif mode.startswith("tail:"):
         suffix = mode[5:] + rest
     else:
@@ -272,13 +278,14 @@ class PumpSweep(Part):
 
     SENTENCES = [
         ("oc", "( 1.2.3 NAME ( 'a' 'b' ) DESC 'd e' OBSOLETE SUP ( t $ u ) STRUCTURAL MUST ( x $ y ) MAY z X-AB-c 'v' X-d ( 'p' 'q' ) X-e ( ) )"),
+        ("oc", "( 1.1 SUP 2.5.6.0 MUST ( 1.2 $ 2.5.4.3$cn ) MAY ( 0.9.2342 ) )"),
         ("dcr", "( 1.2.3 NAME ( ) AUX ( a ) X-A ( ) X-B ( 'b' ) X-C 'c' )"),
         ("at", "( 1.2.3 NAME 'n' DESC 'd' SUP s EQUALITY e ORDERING o SUBSTR u SYNTAX 1.2.3{64} SINGLE-VALUE COLLECTIVE NO-USER-MODIFICATION USAGE dSAOperation X-A 'v' )"),
         ("dcr", "( 1.2.3 NAME 'n' AUX ( a $ b ) MUST m MAY ( c $ d ) NOT n X-A 'v' )"),
         ("filter", "(&(cn;lang-en=a\\2ab*c)(|(1.2.3:dn:2.5.13.2:=v)(!(o>=1))))"),
     ]
     SYMBOLS = ["1", "0", "a", "A", " ", "-", "_", ".", "'", "\\", "$", "(", ")", "{", ";", ":", "*", "=", "\\27", "1.", ".1", "a ", " a",
-               "' '", "$ a", ";a", "(!", "(&", "\\2", "\\41", "'v' ", "a*"]
+               "' '", "$ a", ";a", "(!", "(&", "\\2", "\\41", "'v' ", "a*", "1.2$", "$1.2", "1.2 $ "]
 
     def enumerate(self, tier: str, shard: int, nshards: int) -> t.Iterable[t.Any]:
         # one case = all families at one position of one sentence (a batch shares a forked child)
@@ -442,7 +449,7 @@ PROP = Property(
         "suffix keeps the rest, truncates, drops the closing parenthesis/quote or inserts a foreign character (late "
         "failure); for receive: many PDUs, deep nesting, tag/length octet runs, huge declared lengths, long control/"
         "filter/substring lists, byte-wise delivery, and a complete sweep pumping every str/bytes field of one message per kind "
-        "with 16 class symbols x 4 endings; plus a complete sweep (every position x 32 class symbols x 14 suffix "
+        "with 16 class symbols x 4 endings; plus a complete sweep (every position x 35 class symbols x 16 suffix "
         "modes) over one feature-rich sentence per entry point, and a fixed list of 37 classic shapes. Oracle (scaling relation): "
         "(b) members are ramped n=4,6,8.. (<= 400 units) in a forked child killed by a CPU-time alarm; a family "
         "violates the property if CPU time at least doubled on each of the last three +2 steps ending above 50 ms AND a "
